@@ -769,6 +769,13 @@ def with_helpers(p: Program, fn: FuncInfo, depth: int = 3, policy: Optional[Call
                     seen.add(r.fq)
                     out.append(r)
                     nxt.append(r)
+                elif isinstance(r, ClassInfo) and r.name.startswith("_") and not r.name.startswith("__") and r.module is f.module:
+                    # a private holder / iterator class of the same module that the unit instantiates: its methods are the unit's code
+                    for m_ in dict.values(r.methods):
+                        if m_.fq not in seen:
+                            seen.add(m_.fq)
+                            out.append(m_)
+                            nxt.append(m_)
             # private functions the unit reaches as VALUES: named directly (map(_render, xs), partial(_h, ..)) or through a private
             # module-level table of functions (`_RENDERERS[bool(as_bytes)]`)
             names = {n.id for n in ast.walk(f.node) if isinstance(n, ast.Name) and isinstance(n.ctx, ast.Load)}
